@@ -226,10 +226,10 @@ theorem clean_of_plain {env : Env} {H p q : Str} (hH : PlainHost env H) (n : Nat
     · simp [(ht.pathNo c hc).2.2]
     · simp [(ht.queryNo c hc).2]
 
-theorem rebracket_plain {H : Str} (h : ':' ∉ H) : rebracket H = H := by
-  unfold rebracket
-  rw [if_neg]
-  simpa using h
+theorem rebracket_plain {nl H : Str} (hat : '@' ∉ nl) (hb : '[' ∉ nl) : rebracket nl H = H := by
+  unfold rebracket hostPart
+  rw [rsplitOnce_none hat, if_neg]
+  simpa using hb
 
 theorem unsplit_assemble {nl p q : Str} (hnl : nl ≠ []) (hp : p.head? = some '/') :
     unsplit gemini nl p q [] = assemble nl p q := by
@@ -274,7 +274,7 @@ theorem parse_canonical (env : Env) {H p q : Str} (hH : PlainHost env H) (n : Na
   have hport : (if n ≠ 1965 then some n else none : Option Nat).getD 1965 = n := by
     by_cases h : n = 1965 <;> simp [h]
   simp only [hport, hpne, Bool.false_eq_true, ↓reduceIte]
-  rw [rebracket_plain (fun h => (hH.chars _ h).2.2.1 rfl)]
+  rw [rebracket_plain (fun h => (authority_chars hH n _ h).2.1 rfl) (fun h => (authority_chars hH n _ h).2.2.1 rfl)]
   have hauth : (if n ≠ 1965 then H ++ [':'] ++ natToStr n else H) = authorityOf H n := rfl
   rw [hauth]
   have := unsplit_assemble (q := q) hnl ht.slash
